@@ -29,6 +29,16 @@ def new_queue(label, item_type=None, rely=None):
 
 
 class QueuePlugin(object):
+    def enter_context(self, interp, cm, run_body):
+        if isinstance(cm, Opaque) and cm.kind == "filelock":
+            interp.path.event("enter", "lock", cm.attrs["_g_key"])
+            try:
+                run_body(cm)
+            finally:
+                interp.path.event("exit", "lock", cm.attrs["_g_key"])
+            return True
+        return False
+
     def getattr(self, interp, base, attr):
         if isinstance(base, Opaque) and base.kind == "process" and attr == "exitcode":
             # None while running; an int once the process has ended (!= 0 iff the target raised)
@@ -173,4 +183,31 @@ def install(X):
     def _(interp, args, kwargs):
         interp.note_assumption("SoftFileLock(path): at most one holder per path at a time across processes; "
                                "released on context exit, normal or exceptional")
-        return EventCM("lock", args[0], None)
+        lk = Opaque("filelock", fresh_name("lock"))
+        lk.attrs["_g_key"] = args[0]
+        return lk
+
+    @X.register_opaque("filelock", "acquire")
+    def _(interp, lk, args, kwargs):
+        t = kwargs.get("timeout", args[0] if args else None)
+        if t is not None and not (isinstance(t, int) and t < 0):
+            # a bounded wait may give up while another process legitimately holds the lock
+            if interp.path.nondet("lock_wait_times_out"):
+                interp.path.event("lock_timeout", lk.attrs["_g_key"])
+                raise PyRaise("Timeout", origin="filelock.Timeout: the lock is held by someone else")
+        interp.path.event("enter", "lock", lk.attrs["_g_key"])
+        return lk
+
+    @X.register_opaque("filelock", "release")
+    def _(interp, lk, args, kwargs):
+        interp.path.event("exit", "lock", lk.attrs["_g_key"])
+        return None
+
+
+    @X.register_opaque("collection", "images")
+    def _(interp, c, args, kwargs):
+        return Opaque("images", fresh_name("images"))
+
+    @X.register_opaque("collection", "descriptions")
+    def _(interp, c, args, kwargs):
+        return Opaque("descriptions", fresh_name("descriptions"))
